@@ -71,4 +71,36 @@ def filterT (q : Int → Bool) (c : Nat) : M Unit :=
     | some i => ([src i], (), i + 1)
     | none => ([], (), p + c)⟩
 
+/-- a finite list in front (`merge([0, 0], L)`): its items pull nothing -/
+def prependListT (xs : List Int) : M Nat :=
+  ⟨0, fun i src p => if i < xs.length then ([xs.getD i 0], i + 1, p) else ([src p], i, p + 1)⟩
+
+/-- a finite list added item by item (`[1, 2, 3] + L`: zip-longest, the finite side filled with 0) -/
+def addListT (xs : List Int) : M Nat := ⟨0, fun i src p => ([xs.getD i 0 + src p], i + 1, p + 1)⟩
+
+/-- zip with a mapped copy of itself (`zip(L, f(L))`; both sides read the same cached source) -/
+def zipMapT (f : Int → Int) : M Unit := ⟨(), fun _ src p => ([src p, f (src p)], (), p + 1)⟩
+
+/-- interleave with a mapped copy of itself: `x0, f x0, x1, f x1, …` — every second output pulls nothing -/
+def interleaveMapT (f : Int → Int) : M (Option Int) :=
+  ⟨none, fun st src p => match st with
+    | none => ([src p], some (src p), p + 1)
+    | some x => ([f x], none, p)⟩
+
+/-- a function vectorised over chunks of length `k` (`1 + wrap(L, k)`) -/
+def chunksMapT (k : Nat) (f : Int → Int) : M Unit :=
+  ⟨(), fun _ src p => ((List.range k).map (fun i => f (src (p + i))), (), p + k)⟩
+
+/-- flatten of chunks of two (`deep_flatten(wrap(L, 2))`): a chunk is pulled whole, its second item is handed out without a pull -/
+def flattenChunks2T : M (Option Int) :=
+  ⟨none, fun st src p => match st with
+    | none => ([src p], some (src (p + 1)), p + 2)
+    | some y => ([y], none, p)⟩
+
+/-- uniquify, with a search window `c`: the next item not seen so far -/
+def uniqT (c : Nat) : M (List Int) :=
+  ⟨[], fun seen src p => match findNext (fun x => !seen.contains x) src c p with
+    | some i => ([src i], src i :: seen, i + 1)
+    | none => ([], seen, p + c)⟩
+
 end Str
